@@ -42,6 +42,10 @@ func NewGitNode(
 
 	basePath, path := func() (string, string) {
 		x := strings.Split(u.Path, "//")
+		// The path inside the repository is optional
+		if len(x) < 2 {
+			return x[0], ""
+		}
 		return x[0], x[1]
 	}()
 	ref := u.Query().Get("ref")
